@@ -6,9 +6,10 @@
        fit / partial_fit batches (any chunking, chunks in which the arm does not occur, one-row chunks);
      * in particular fit(c1 ++ c2) and fit(c1); partial_fit(c2) give the same sum, count and mean for every arm.
     PROVED structurally (any number structure, so also bit-for-bit in binary64) for neighbourhood policies:
-     * Radius / KNearest / LSHNearest store exactly the concatenation of the rows of fit and partial_fit
-       (C03_history_after_fit / _partial_fit) and LSH files a partial_fit row under start+i in the bucket of
-       its hash with the SAME planes (C11_insert_rows_bucket).
+     * Radius / KNearest / LSHNearest: fit(c1 ++ c2) and fit(c1); partial_fit(c2) leave the SAME object - stored decisions,
+       (binarized) rewards, contexts, the learning policy with its flags, the LSH planes, the LSH hash tables bucket for bucket
+       and position for position, and the generator - at the policy (NbrBatch.v) and at the public facade (NbrBatchFacade.v);
+       the hash tables of rows c1 ++ c2 are those of c1 with c2 inserted at positions start + |c1| + i (insert_rows_app).
     PROVED for the linear policies (scale=False, exact arithmetic): any two ways of cutting the same per-arm rows into
     fit + partial_fit calls give the same A, X'y, A_inv and beta for every arm (X'X and X'y are additive over row blocks).
     PROVED for Clusters over context-free policies other than Thompson Sampling: one fit on the accumulated history, or fit +
@@ -17,7 +18,7 @@
     ..._partial: that KMeans does label alike (it is re-run on the whole history with the same seed) and MiniBatchKMeans are
     covered by the batch-versus-chunked relation only. *)
 From Coq Require Import List ZArith Bool Arith QArith Qcanon Permutation.
-From MW Require Import Num Assoc AssocFacts Rng Par CF CFInv CFClean CFForget CFSpec Matrix Lin Warm WarmInv Nbr NbrFacts NbrIndep LshFacts Clu Tree CellFacts Mab FacadeCF FacadeArms MoreFacts NumLaws CFAlg Sim Extra QcInst OrderFacts ExpIrrel LinInv FacadeLin LpInv NbrInv CluTreeInv FacadeAll ToyFacts C09All C10All LinForget LinSim MatrixFacts GaussJordan LinSpec NbrIndepGen CluIndep C17Lin WarmIdem C14More LshScale TreeLeaf Rename PopSpec CopyFacts StatFacts CluBatch LinWarm.
+From MW Require Import Num Assoc AssocFacts Rng Par CF CFInv CFClean CFForget CFSpec Matrix Lin Warm WarmInv Nbr NbrFacts NbrIndep LshFacts Clu Tree CellFacts Mab FacadeCF FacadeArms MoreFacts NumLaws CFAlg Sim Extra QcInst OrderFacts ExpIrrel LinInv FacadeLin LpInv NbrInv CluTreeInv FacadeAll ToyFacts C09All C10All LinForget LinSim MatrixFacts GaussJordan LinSpec NbrIndepGen CluIndep C17Lin WarmIdem C14More LshScale TreeLeaf Rename PopSpec CopyFacts StatFacts CluBatch LinWarm NbrBatch NbrBatchFacade.
 Import ListNotations.
 
 Theorem C06_statistics_depend_only_on_concatenated_history :
@@ -62,8 +63,8 @@ Theorem C06_linear_split_into_fit_and_partial_fit_is_irrelevant :
   NumLaws N ->
   forall aeqb : A -> A -> bool,
   (forall x y : A, aeqb x y = true <-> x = y) ->
-  forall (s0 : (@lin R A G)) (g g' : G) (d0 : list A) (rs0 : list R) (cx0 : (@mat R)) (h : list batch) 
-    (d0' : list A) (rs0' : list R) (cx0' : (@mat R)) (h' : list batch) (a : A),
+  forall (s0 : (@lin R A G)) (g g' : G) (d0 : list A) (rs0 : list R) (cx0 : (@mat R)) (h : list (@batch R A)) 
+    (d0' : list A) (rs0' : list R) (cx0' : (@mat R)) (h' : list (@batch R A)) (a : A),
   lin_keys_ok s0 ->
   In a (l_arms s0) ->
   l_scale s0 = false ->
@@ -97,6 +98,41 @@ Theorem C06_clusters_batch_equals_incremental :
 Proof. exact @clusters_batch_equals_incremental. Qed.
 Print Assumptions C06_clusters_batch_equals_incremental.
 
+Theorem C06_neighbourhood_policy_fit_whole_equals_fit_then_partial_fit :
+  forall (R A G : Type) (N : Num R) (RG : RngOps R G) (s : (@nbr R A G)) (g : G) (d1 d2 : list A)
+    (r1 r2 : list R) (c1 c2 : (@mat R)),
+  length d1 = length r1 ->
+  ncols (c1 ++ c2) = ncols c1 ->
+  nbr_fit N RG s g (d1 ++ d2) (r1 ++ r2) (c1 ++ c2) =
+  (nbr_partial_fit N (fst (nbr_fit N RG s g d1 r1 c1)) d2 r2 c2, snd (nbr_fit N RG s g d1 r1 c1)).
+Proof. exact @nbr_fit_whole_equals_fit_then_partial_fit. Qed.
+Print Assumptions C06_neighbourhood_policy_fit_whole_equals_fit_then_partial_fit.
+
+Theorem C06_neighbourhood_facade_fit_whole_equals_fit_then_partial_fit :
+  forall (R A G : Type) (N : Num R) (aeqb : A -> A -> bool) (RG : RngOps R G) 
+    (m : (@mab R A G)) (s : (@nbr R A G)) (d1 d2 : list A) (r1 r2 row : list R) (c1 : list (list R)) 
+    (c2 : (@mat R)) (o o1 o2 : (@oracle R A)),
+  m_imp m = INbr s ->
+  snd (step N aeqb RG m (Fit (d1 ++ d2) (r1 ++ r2) (Some ((row :: c1) ++ c2)) o)) = ODone ->
+  snd (step N aeqb RG m (Fit d1 r1 (Some (row :: c1)) o1)) = ODone ->
+  snd
+    (step N aeqb RG (fst (step N aeqb RG m (Fit d1 r1 (Some (row :: c1)) o1)))
+       (PartialFit d2 r2 (Some c2) o2)) = ODone ->
+  fst (step N aeqb RG m (Fit (d1 ++ d2) (r1 ++ r2) (Some ((row :: c1) ++ c2)) o)) =
+  fst
+    (step N aeqb RG (fst (step N aeqb RG m (Fit d1 r1 (Some (row :: c1)) o1)))
+       (PartialFit d2 r2 (Some c2) o2)).
+Proof. exact @facade_nbr_fit_whole_equals_fit_then_partial_fit. Qed.
+Print Assumptions C06_neighbourhood_facade_fit_whole_equals_fit_then_partial_fit.
+
+Theorem C06_lsh_tables_of_concatenated_rows :
+  forall (R : Type) (N : Num R) (ndim : nat) (plane : (@mat R)) (tbl : list (Z * list nat)) 
+    (c1 c2 : (@mat R)) (start : nat),
+  lsh_insert_rows N ndim plane tbl (c1 ++ c2) start =
+  lsh_insert_rows N ndim plane (lsh_insert_rows N ndim plane tbl c1 start) c2 (start + length c1).
+Proof. exact @insert_rows_app. Qed.
+Print Assumptions C06_lsh_tables_of_concatenated_rows.
+
 Theorem C06_gram_matrix_additive_over_row_blocks :
   forall (R : Type) (N : Num R),
   NumLaws N -> forall (d : nat) (x1 x2 : (@mat R)), xtx N d (x1 ++ x2) = madd N (xtx N d x1) (xtx N d x2).
@@ -111,4 +147,19 @@ Theorem C06_moment_vector_additive_over_row_blocks :
 Proof. exact @xty_app. Qed.
 Print Assumptions C06_moment_vector_additive_over_row_blocks.
 
+(* non-vacuity of the facade statement: an LSHNearest bandit (2 bits, 2 tables) over Thompson Sampling with a binarizer;
+   the three calls are accepted and the two objects are equal (also checked by evaluation) *)
+Definition q6 (z : Z) : Qc := Q2Qc (inject_Z z).
+Definition ex6_mab : @mab Qc Z nat :=
+  mkMab (INbr (nbr_init (NLsh 2 2) Euclidean None false [1; 2]%Z
+                        (LCf (cf_init QcNum KThompson (q6 0) (Some (fun (a : Z) (r : Qc) => if Qc_eq_dec r (q6 0) then q6 0 else q6 1)) [1; 2]%Z)))) false 3%nat.
+Definition ex6_o : @oracle Qc Z := mkOracle [] [] [] (fun _ _ => 0%nat) [].
+Definition ex6_whole := step QcNum Z.eqb ToyRng ex6_mab (Fit ([1; 2] ++ [2; 1; 1])%Z ([q6 0; q6 1] ++ [q6 1; q6 1; q6 0]) (Some (([q6 1; q6 (-2)] :: [[q6 0; q6 3]]) ++ [[q6 2; q6 2]; [q6 (-1); q6 0]; [q6 1; q6 (-2)]])) ex6_o).
+Definition ex6_first := step QcNum Z.eqb ToyRng ex6_mab (Fit [1; 2]%Z [q6 0; q6 1] (Some ([q6 1; q6 (-2)] :: [[q6 0; q6 3]])) ex6_o).
+Definition ex6_second := step QcNum Z.eqb ToyRng (fst ex6_first) (PartialFit [2; 1; 1]%Z [q6 1; q6 1; q6 0] (Some [[q6 2; q6 2]; [q6 (-1); q6 0]; [q6 1; q6 (-2)]]) ex6_o).
+Example C06_facade_premises_hold : snd ex6_whole = ODone /\ snd ex6_first = ODone /\ snd ex6_second = ODone.
+Proof. vm_compute. repeat split. Qed.
+Example C06_facade_tables_are_not_trivial :
+  match m_imp (fst ex6_second) with INbr s => map (fun t => length t) (n_tables s) | _ => [] end <> [0; 0]%nat.
+Proof. vm_compute. discriminate. Qed.
 
